@@ -159,9 +159,18 @@ macro_rules! apply_claim {
                 NativeVal::Tuple(a, b, c) => go_res!(CustomClaim::try_from((key.clone(), (*a, b.clone(), *c)))),
                 NativeVal::Map(x) => go_res!(CustomClaim::try_from((key.clone(), x.clone()))),
                 NativeVal::Rec(x) => go_res!(CustomClaim::try_from((key.clone(), x.clone()))),
+                NativeVal::Unserialisable => go_res!(CustomClaim::try_from((key.clone(), Unserialisable))),
             },
         }
     }};
+}
+
+/// A value that cannot be serialised.
+pub struct Unserialisable;
+impl serde::Serialize for Unserialisable {
+    fn serialize<S: serde::Serializer>(&self, _s: S) -> Result<S::Ok, S::Error> {
+        Err(serde::ser::Error::custom("this value has no JSON form"))
+    }
 }
 
 /// A caller-defined claim type: the trait `PasetoClaim` is public, and nothing requires an
@@ -1268,7 +1277,11 @@ impl World {
                     Some(k) => k.clone(),
                     None => return Obs::Skipped("no such key".into()),
                 };
+                // a clock read while the verifier is CONSTRUCTED is served a far-away instant (1975): the time
+                // rules are about the moment of each parse
+                env::set_clock(157_766_400 * crate::civil::NS, &[]);
                 let made = env::guarded(|| make_verifier(spec, &km, &self.arena));
+                let _ = env::take_clock_reads();
                 match made {
                     Ok(Ok((obj, notes))) => {
                         self.verifiers.insert(*v, VerifierSlot { spec: spec.clone(), obj: Some(obj), cur_footer: None, cur_assertion: None });
